@@ -22,9 +22,18 @@ ALSO = {
     'C04-w2-2': ['C11'],   # UDP session relay table (service level)
     'C13-w1-2': ['C07'],
 }
-for d in sorted(glob.glob('/verif/seeded/*/')):
+os.environ['VERIF_SHRINK_S'] = '3'  # sensitivity runs do not need minimal replays
+shard, nshards = 0, 1
+if '--shard' in sys.argv:
+    shard, nshards = [int(x) for x in sys.argv[sys.argv.index('--shard') + 1].split('/')]
+skipdone = '--resume' in sys.argv
+for i, d in enumerate(sorted(glob.glob('/verif/seeded/*/'))):
     name = os.path.basename(d.rstrip('/'))
     if only and not name.startswith(only):
+        continue
+    if i % nshards != shard:
+        continue
+    if skipdone and 'check' in json.load(open(d + 'meta.json')):
         continue
     mp = d + 'meta.json'
     m = json.load(open(mp))
